@@ -36,8 +36,8 @@ PROPS["C18"] = dict(
     rule="apiutil case = one generated native value (or attribute list + NLRI as api.Path, or one hand-built API message) x MarshallingOption set (ADD-PATH per family); "
          "each value is converted native->API->native->API, its API form is presence-toggled (clear a sub-message / list / optional string, add an empty sub-message) "
          "and fed back when the converters accept it; non-trivial iff the API form has a nested element or >= 2 populated fields; distinct by (Go type, field-presence "
-         "mask of the API message). server case = one Add*/List*/Delete* read-back; distinct by (object kind, NLRI type / field-presence mask). "
-         "quick: 1e5 apiutil cases + 2.4e3 read-backs; thorough: 3e6 + 7.2e4",
+         "mask of the API message). server case = one Add*/List*/Delete* read-back; distinct by (object kind, NLRI type / field-presence mask). or one stateful sequence on a configuration object (defined set of every type: create / Replace / add to an existing name / delete members / delete + re-create, listed back after every step and compared with a fresh set created with the expected members; statement: add further kinds to an existing name, delete kinds; policy: append / remove statements, re-create; global assignment: add / set / remove / delete all; neighbor: AddPeer, UpdatePeer, ListPeer), distinct by (object kind, operation trace). "
+         "quick: 1e5 apiutil cases + 3.4e3 server cases; thorough: 3e6 + 1e5",
     assumptions=["equal API value = proto.Equal after clearing singular non-oneof sub-messages and map entries that hold no populated field (absent == all defaults); a field "
                  "the original API message leaves unset may come back default-filled (counted under api_default_filled:*), a populated field may not be lost or changed",
                  "a Marshal* error that comes from the default branch of its type switch ('unsupported ...', 'invalid ... type to marshal') documents the type as unsupported "
@@ -48,11 +48,18 @@ PROPS["C18"] = dict(
                  "Len() is compared with the serialised size only when the original value was itself consistent (Len reads cached header fields)",
                  "string/bytes fields are emptied only where the field is optional by itself (EVPN MAC/IP address, BGP-LS optional TLVs, FQDN, opaque values); lists a TLV consists of "
                  "(End.X SIDs) are not cleared; an all-zero address family is not generated",
+                 "server sequences: Replace leaves exactly the new members, adding to an existing name the union, deleting members the difference; members are compared as a set "
+                 "(a member listed twice after it was added twice is counted under seq_set_listing_with_duplicates, not judged); a default action the sequence has not set is not compared; "
+                 "after UpdatePeer only the fields the update sets, and a short list of zero-default fields it leaves unset, are compared",
                  "server: listed community / as-path set entries may be the documented normalisation of the configured text (^value$ for a plain value, '_' expanded); "
                  "RPKI condition NONE equals no condition; the ES-Import route target the server derives for EVPN Ethernet-segment routes (RFC 7432 7.6) is not compared; "
                  "an IPv4-unicast route may be listed with NEXT_HOP or MP_REACH"],
     must_count=["api_accepted", "attr_lists", "paths_structured", "paths_binary", "path_readbacks", "path_with_identifier", "peer_readbacks", "peer_group_readbacks",
-                "defined_set_readbacks", "statement_readbacks", "policy_readbacks", "assignment_readbacks"]
+                "defined_set_readbacks", "statement_readbacks", "policy_readbacks", "assignment_readbacks",
+                "seq_set_steps", "seq_set_op:create", "seq_set_op:replace", "seq_set_op:append", "seq_set_op:remove", "seq_set_op:recreate",
+                "seq_statement_steps", "seq_policy_steps", "seq_policy_op:append", "seq_policy_op:remove", "seq_policy_op:recreate",
+                "seq_assignment_steps", "seq_assignment_op:add", "seq_assignment_op:set", "seq_assignment_op:remove", "seq_assignment_op:delete-all", "seq_peer_updates"]
+               + ["seq_set:" + t for t in ("PREFIX", "NEIGHBOR", "AS_PATH", "COMMUNITY", "EXT_COMMUNITY", "LARGE_COMMUNITY")]
                + ["attr:PathAttribute" + a for a in _C18_ATTRS] + ["nlri:" + n for n in _C18_NLRIS] + ["cap:Cap" + c for c in _C18_CAPS] + ["fn:" + f for f in _C18_FNS]
                + ["family:" + f for f in _C18_FAMILIES] + ["path_family:" + f for f in _C18_FAMILIES if "srpolicy" not in f]
                + ["defined_set:" + t for t in ("PREFIX", "NEIGHBOR", "AS_PATH", "COMMUNITY", "EXT_COMMUNITY", "LARGE_COMMUNITY")],
